@@ -226,3 +226,20 @@ package wire
 //@   ensures encErr == nil && decErr == nil && wLinked(w, r, old(wpos(w)), old(rpos(r)), wpos(w) - old(wpos(w))) ==>
 //@     y != nil && len(y.Signature) == len(x.Signature) && (forall i int :: 0 <= i && i < len(x.Signature) ==> y.Signature[i] == x.Signature[i]) &&
 //@     rpos(r) - old(rpos(r)) == wpos(w) - old(wpos(w))
+
+// The message type byte. msgType(m): what m.Type() returns (messages are immutable in this respect). isEncoder(m): the message can be
+// encoded by the native codec (it panics on a message that cannot).
+//@ ghost func msgType(m Msg) Type
+//@ interface Msg
+//@   method Type
+//@     requires recv != nil
+//@     ensures result == msgType(recv)
+//@ end
+//@ func verifRoundTripMsgType
+//@   tokenmodel
+//@   requires w0 != nil && r0 != nil && x != nil && isEncoder(x)
+//@   modifies *
+//@   inlines EncodeMsg, DecodeMsg
+//@   callsite fn:decoders : arg0 == r0 && !desync(r0) && rcount(r0) == old(rcount(r0)) + 1
+//@   ensures encErr == nil ==> wcount(w0) == old(wcount(w0)) + 2 && wtokKind(w0, old(wcount(w0))) == tokkind("uint8") && wtokVal(w0, old(wcount(w0))) == msgType(x) &&
+//@     wtokKind(w0, old(wcount(w0)) + 1) == tokkind("encoder") && wtokVal(w0, old(wcount(w0)) + 1) == encOf(x)
